@@ -15,9 +15,11 @@ package types
 //@   requires m != nil && endTime != nil && !m.Amount.IsNil()
 //@   requires timeOK(startTime) && timeOK(*endTime) && timeOK(blockTime)
 //@   requires ms(*endTime) > ms(startTime)
+//@   panic_requires 0 <= m.Amount && m.Amount < E36()
 //@   ensures !res.IsNil() && res == linSched(m.Amount, startTime, *endTime, blockTime)
+//@   ensures m.Amount >= 0 ==> 0 <= res && res <= m.Amount * P
 //@   reveal linSched
-//@   prop C02
+//@   prop C02 C10
 //@
 //@ // exponential-step schedule: E(j) is the amount of epoch j, S(n) the sum of the first n epochs
 //@ spec func expE(A int, m int, j int) int = j <= 0 ? A * P : chopRound(expE(A, m, j - 1) * m)
@@ -27,17 +29,31 @@ package types
 //@   let n = tquo(now - s, step) in
 //@   expS(A, m, n) + tquo(expE(A, m, n) * (now - s - n * step), step)
 //@
+//@ // C10's "sane magnitudes": amounts below 10^36, steps of at least one second, multipliers at most 1
+//@ spec func E36() int = 1000000000000000000000000000000000000
+//@ spec func E54() int = 1000000000000000000000000000000000000000000000000000000
+//@ spec func E64() int = 10000000000000000000000000000000000000000000000000000000000000000
+//@ pred saneExp(m) = 0 < m.Amount && m.Amount < E36() && 0 <= m.AmountMultiplier && m.AmountMultiplier <= P && m.StepDuration >= secondNs
+//@ lemma chopRoundLe(x int, e int)
+//@   requires 0 <= x && x <= e * P
+//@   ensures 0 <= chopRound(x) && chopRound(x) <= e
+//@   reveal chopRound
+//@   prop C10
 //@ func (m *ExponentialStepMinting) AmountToMint(logger, startTime, endTime, blockTime) (res)
 //@   requires m != nil && !m.Amount.IsNil() && !m.AmountMultiplier.IsNil()
 //@   requires timeOK(startTime) && timeOK(blockTime) && (endTime != nil ==> timeOK(*endTime))
 //@   requires m.StepDuration > 0 && startTime <= blockTime && (endTime != nil ==> startTime <= *endTime)
 //@   ensures !res.IsNil()
+//@   panic_requires saneExp(m)
 //@   ensures res == expSched(m.Amount, m.AmountMultiplier, m.StepDuration, startTime, *endTime, endTime != nil, blockTime)
+//@   ensures saneExp(m) ==> 0 <= res && res <= E64()
 //@   reveal expSched
-//@   prop C02
+//@   prop C02 C10
 //@ loop ExponentialStepMinting.AmountToMint#1
 //@   invariant 0 <= i && i <= numOfPassedEpochs
 //@   invariant !amountToMint.IsNil() && !epochAmount.IsNil()
+//@   invariant saneExp(m) ==> 0 <= epochAmount && epochAmount <= E54() && 0 <= amountToMint && amountToMint <= i * E54()
+//@   uses chopRoundLe(epochAmount * m.AmountMultiplier, epochAmount)
 //@   invariant amountToMint == expS(m.Amount, m.AmountMultiplier, i)
 //@   invariant epochAmount == expE(m.Amount, m.AmountMultiplier, i - 1)
 //@   decreases numOfPassedEpochs - i
@@ -65,13 +81,16 @@ package types
 //@
 //@ func (m *NoMinting) AmountToMint(logger, startTime, endTime, blockTime) (res)
 //@   ensures !res.IsNil() && res == 0
-//@   prop C02
+//@   prop C02 C10
 //@
+//@ pred saneMinter(m) = (isLinear(m) ==> linCfg(m).Amount < E36()) && (isExp(m) ==> saneExp(expCfg(m)))
 //@ func (m *Minter) AmountToMint(logger, startTime, blockTime) (res)
 //@   requires validMinter(m) && timeOK(startTime) && timeOK(blockTime)
 //@   requires startTime <= blockTime && (m.EndTime != nil ==> ms(startTime) < ms(*m.EndTime))
+//@   panic_requires saneMinter(m)
 //@   ensures !res.IsNil() && res == sched(m, startTime, blockTime)
-//@   prop C02
+//@   ensures saneMinter(m) ==> 0 <= res && res <= E64()
+//@   prop C02 C10
 //@
 //@ // log-only helper: callers learn nothing about the result
 //@ func (m *Minter) GetMinterJSON() (r)
@@ -179,24 +198,28 @@ package types
 //@ func (m *LinearMinting) CalculateInflation(totalSupply, minterStart, endTime, blockTime) (res)
 //@   requires m != nil && endTime != nil && !m.Amount.IsNil() && !totalSupply.IsNil()
 //@   requires timeOK(minterStart) && timeOK(*endTime) && *endTime > minterStart
+//@   panic_requires 0 <= m.Amount && m.Amount < E36()
 //@   ensures !res.IsNil() && res == linInfl(m.Amount, minterStart, *endTime, totalSupply)
 //@   reveal linInfl
-//@   prop C19
+//@   prop C19 C10
 //@ func (m *ExponentialStepMinting) CalculateInflation(totalSupply, startTime, endTime, blockTime) (res)
 //@   requires m != nil && !m.Amount.IsNil() && !m.AmountMultiplier.IsNil() && !totalSupply.IsNil()
 //@   requires timeOK(startTime) && timeOK(blockTime) && (endTime != nil ==> timeOK(*endTime))
 //@   requires m.StepDuration > 0 && startTime <= blockTime
 //@   ensures !res.IsNil()
+//@   panic_requires saneExp(m)
 //@   ensures res == expInfl(m.Amount, m.AmountMultiplier, m.StepDuration, startTime, *endTime, endTime != nil, blockTime, totalSupply)
 //@   reveal expInfl
-//@   prop C19
+//@   prop C19 C10
 //@ loop ExponentialStepMinting.CalculateInflation#1
 //@   invariant 0 <= i && i <= numOfPassedEpochs
 //@   invariant !epochAmount.IsNil() && epochAmount == expE(m.Amount, m.AmountMultiplier, i - 1)
+//@   invariant saneExp(m) ==> 0 <= epochAmount && epochAmount <= E54()
+//@   uses chopRoundLe(epochAmount * m.AmountMultiplier, epochAmount)
 //@   decreases numOfPassedEpochs - i
 //@ func (m *NoMinting) CalculateInflation(totalSupply, startTime, endTime, blockTime) (res)
 //@   ensures !res.IsNil() && res == 0
-//@   prop C19
+//@   prop C19 C10
 //@
 //@ spec func infl(m, s, t, supply) int =
 //@   s > t ? 0 : (isLinear(m) ? linInfl(linCfg(m).Amount, s, *m.EndTime, supply)
@@ -204,8 +227,9 @@ package types
 //@ func (m *Minter) CalculateInflation(totalSupply, startTime, blockTime) (res)
 //@   requires validMinter(m) && !totalSupply.IsNil() && timeOK(startTime) && timeOK(blockTime)
 //@   requires m.EndTime != nil ==> *m.EndTime > startTime
+//@   panic_requires saneMinter(m)
 //@   ensures !res.IsNil() && res == infl(m, startTime, blockTime, totalSupply)
-//@   prop C19
+//@   prop C19 C10
 //@
 //@ // reported inflation = annualised emission rate / supply, up to the stated rounding tolerance (units: 10^-18):
 //@ // one truncation by supply and one by the period on the inflation side, one per schedule value on the emission side
